@@ -12,7 +12,7 @@ use crate::{
 };
 
 /// f64 carried as bits (JSON cannot hold NaN/inf); Debug shows the float.
-#[derive(Clone, Copy, PartialEq, Eq, Hash, Serialize, Deserialize)]
+#[derive(Clone, Copy, PartialEq, Eq, Hash, Serialize, Deserialize, Default)]
 pub struct Fb(pub u64);
 impl Fb {
     pub fn f(self) -> f64 {
